@@ -33,7 +33,7 @@ EVIDENCE = {
 }
 
 PSM = 0x1005
-PROFILES = ['zero', 'lan', 'radio', 'slow', 'skewed']
+PROFILES = ['zero', 'lan', 'radio', 'slow', 'skewed', 'burst', 'burst-radio']
 
 
 def crc16(data: bytes) -> int:
